@@ -37,7 +37,10 @@ def main(argv):
     tier = 'quick'
     if '--tier' in argv:
         tier = argv[argv.index('--tier') + 1]
-    subs = [a for a in argv if not a.startswith('--') and a != tier]
+    seed = None
+    if '--seed' in argv:
+        seed = argv[argv.index('--seed') + 1]       # detection should not hinge on one lucky VERIF_SEED
+    subs = [a for a in argv if not a.startswith('--') and a != tier and a != seed]
     failures = 0
     rows = []
     for name, pf, owners, expect_silent in patches():
@@ -55,6 +58,9 @@ def main(argv):
             for owner in owners:
                 env = dict(os.environ)
                 env['VERIF_REPO'] = copy
+                if seed is not None:
+                    env['VERIF_SEED'] = seed
+                    env.pop('PYTHONHASHSEED', None)
                 cmd = [os.path.join(VERIF, 'check'), owner, '--tier', tier, '--no-evidence', '--shrink-budget', '5']
                 if not expect_silent:
                     cmd.append('--first')      # same budget, but stop as soon as one witness is found
